@@ -57,6 +57,24 @@ func (r *Rng) AdvAmount(near *big.Int) *big.Int {
 	}
 }
 
+// deepAmounts: the top of the supply range of the operating envelope (single deposits up to 2^128)
+var deepAmounts = []*big.Int{pow2(64), pow2(100), pow2(127), sub1(pow2(128)), pow2(128), add1(pow2(128)), new(big.Int).Add(pow2(127), pow2(126))}
+
+// DeepAmount: deposits / swaps / bucket top-ups of a "deep" world; now and then values that only the
+// bank can refuse (2^255, 2^256−1).
+func (r *Rng) DeepAmount(near *big.Int) *big.Int {
+	switch r.Intn(10) {
+	case 0, 1, 2, 3, 4:
+		return deepAmounts[r.Intn(len(deepAmounts))]
+	case 5:
+		return []*big.Int{pow2(255), sub1(pow2(256)), sub1(pow2(255))}[r.Intn(3)]
+	case 6:
+		return r.BigBits(100 + r.Intn(29))
+	default:
+		return r.AdvAmount(near)
+	}
+}
+
 type userWorld struct {
 	*World
 	msrv   margintypes.MsgServer
@@ -65,10 +83,51 @@ type userWorld struct {
 	esrv   ethtypes.MsgServer
 	now    time.Time
 	lastOp string
+	deep   bool // pools, deposits and rewards buckets at the top of the supply range
 }
 
-func newUserWorld(r *Rng) *userWorld {
-	w := policyWorld(r)
+func (u *userWorld) amount(r *Rng, near *big.Int) *big.Int {
+	if u.deep {
+		return r.DeepAmount(near)
+	}
+	return r.AdvAmount(near)
+}
+
+// deepWorld: users hold 2^135 of every denom; pools are created with depths 2^64 … 2^128+1 on the native
+// side and 1 … 2^128+1 on the external side.
+func deepWorld(r *Rng) *World {
+	denoms := []string{"cusdc", "ceth", "cdash"}
+	decs := []int64{6, 18, int64(r.Intn(20))}
+	np := 2 + r.Intn(2)
+	w := NewWorld(denoms[:np], decs[:np], 4)
+	for _, a := range w.users {
+		w.Fund(a, "rowan", pow2(135))
+		for _, d := range w.denoms {
+			w.Fund(a, d, pow2(135))
+		}
+	}
+	ext := append([]*big.Int{big.NewInt(1), big.NewInt(2), e10(18)}, deepAmounts...)
+	for i, d := range w.denoms {
+		native := deepAmounts[r.Intn(len(deepAmounts))]
+		if r.Chance(1, 4) {
+			native = e10(18) // the minimum a pool can be created with
+		}
+		if w.CreatePool(w.users[i%len(w.users)], d, native, ext[r.Intn(len(ext))]) != "ok" {
+			w.CreatePool(w.users[i%len(w.users)], d, pow2(100), pow2(64))
+		}
+	}
+	return w
+}
+
+func newDeepUserWorld(r *Rng) *userWorld {
+	u := newUserWorldOn(deepWorld(r))
+	u.deep = true
+	return u
+}
+
+func newUserWorld(r *Rng) *userWorld { return newUserWorldOn(policyWorld(r)) }
+
+func newUserWorldOn(w *World) *userWorld {
 	u := &userWorld{World: w, now: t0}
 	u.msrv = marginkeeper.NewMsgServerImpl(w.app.MarginKeeper)
 	u.bsrv = bankkeeper.NewMsgServerImpl(w.app.BankKeeper)
@@ -144,13 +203,13 @@ func (u *userWorld) userOp(r *Rng) string {
 				near = u.poolDepth(d, false)
 			}
 		}
-		msg := clptypes.NewMsgSwap(usr, sent, recv, sdk.NewUintFromBigInt(r.AdvAmount(near)), sdk.NewUintFromBigInt(r.AdvAmount(nil)))
+		msg := clptypes.NewMsgSwap(usr, sent, recv, sdk.NewUintFromBigInt(u.amount(r, near)), sdk.NewUintFromBigInt(u.amount(r, nil)))
 		if r.Chance(2, 3) {
 			msg.MinReceivingAmount = sdk.ZeroUint()
 		}
 		return run("swap", msg.ValidateBasic, func(ctx sdk.Context) error { _, err := w.csrv.Swap(sdk.WrapSDKContext(ctx), &msg); return err })
 	case 3, 4, 5:
-		msg := clptypes.NewMsgAddLiquidity(usr, asset, sdk.NewUintFromBigInt(r.AdvAmount(u.poolDepth(d, true))), sdk.NewUintFromBigInt(r.AdvAmount(u.poolDepth(d, false))))
+		msg := clptypes.NewMsgAddLiquidity(usr, asset, sdk.NewUintFromBigInt(u.amount(r, u.poolDepth(d, true))), sdk.NewUintFromBigInt(u.amount(r, u.poolDepth(d, false))))
 		return run("addliq", msg.ValidateBasic, func(ctx sdk.Context) error { _, err := w.csrv.AddLiquidity(sdk.WrapSDKContext(ctx), &msg); return err })
 	case 6, 7:
 		wb := int64(1 + r.Intn(10000))
@@ -167,7 +226,7 @@ func (u *userWorld) userOp(r *Rng) string {
 				units = r.Near(units)
 			}
 		} else {
-			units = r.AdvAmount(nil)
+			units = u.amount(r, nil)
 		}
 		msg := clptypes.NewMsgRemoveLiquidityUnits(usr, asset, sdk.NewUintFromBigInt(units))
 		return run("remunits", msg.ValidateBasic, func(ctx sdk.Context) error {
@@ -175,16 +234,16 @@ func (u *userWorld) userOp(r *Rng) string {
 			return err
 		})
 	case 9:
-		msg := clptypes.MsgUnlockLiquidityRequest{Signer: usr.String(), ExternalAsset: &asset, Units: sdk.NewUintFromBigInt(r.AdvAmount(nil))}
+		msg := clptypes.MsgUnlockLiquidityRequest{Signer: usr.String(), ExternalAsset: &asset, Units: sdk.NewUintFromBigInt(u.amount(r, nil))}
 		return run("unlock", msg.ValidateBasic, func(ctx sdk.Context) error { _, err := w.csrv.UnlockLiquidity(sdk.WrapSDKContext(ctx), &msg); return err })
 	case 10:
-		msg := clptypes.MsgCancelUnlock{Signer: usr.String(), ExternalAsset: &asset, Units: sdk.NewUintFromBigInt(r.AdvAmount(nil))}
+		msg := clptypes.MsgCancelUnlock{Signer: usr.String(), ExternalAsset: &asset, Units: sdk.NewUintFromBigInt(u.amount(r, nil))}
 		return run("cancelunlock", msg.ValidateBasic, func(ctx sdk.Context) error {
 			_, err := w.csrv.CancelUnlockLiquidity(sdk.WrapSDKContext(ctx), &msg)
 			return err
 		})
 	case 11:
-		amt := r.AdvAmount(nil)
+		amt := u.amount(r, nil)
 		if amt.Sign() == 0 {
 			amt = big.NewInt(1)
 		}
@@ -200,14 +259,14 @@ func (u *userWorld) userOp(r *Rng) string {
 			coll, bor, near = d, "rowan", u.poolDepth(d, false)
 		}
 		lev := sdk.NewDecWithPrec(int64(10+r.Intn(20)), 1)
-		msg := &margintypes.MsgOpen{Signer: usr.String(), CollateralAsset: coll, CollateralAmount: sdk.NewUintFromBigInt(r.AdvAmount(near)), BorrowAsset: bor, Position: margintypes.Position_LONG, Leverage: lev}
+		msg := &margintypes.MsgOpen{Signer: usr.String(), CollateralAsset: coll, CollateralAmount: sdk.NewUintFromBigInt(u.amount(r, near)), BorrowAsset: bor, Position: margintypes.Position_LONG, Leverage: lev}
 		return run("margin.open", msg.ValidateBasic, func(ctx sdk.Context) error { _, err := u.msrv.Open(sdk.WrapSDKContext(ctx), msg); return err })
 	case 13:
 		msg := &margintypes.MsgClose{Signer: usr.String(), Id: uint64(1 + r.Intn(6))}
 		return run("margin.close", msg.ValidateBasic, func(ctx sdk.Context) error { _, err := u.msrv.Close(sdk.WrapSDKContext(ctx), msg); return err })
 	case 14:
 		to := w.users[r.Intn(len(w.users))]
-		amt := r.AdvAmount(nil)
+		amt := u.amount(r, nil)
 		if amt.Sign() == 0 {
 			amt = big.NewInt(1)
 		}
@@ -216,7 +275,7 @@ func (u *userWorld) userOp(r *Rng) string {
 		return run("bank.send", msg.ValidateBasic, func(ctx sdk.Context) error { _, err := u.bsrv.Send(sdk.WrapSDKContext(ctx), msg); return err })
 	default:
 		if r.Bool() {
-			amt := r.AdvAmount(nil)
+			amt := u.amount(r, nil)
 			if amt.Sign() == 0 {
 				amt = big.NewInt(1)
 			}
@@ -228,7 +287,7 @@ func (u *userWorld) userOp(r *Rng) string {
 				return err
 			})
 		}
-		amt := r.AdvAmount(nil)
+		amt := u.amount(r, nil)
 		msg := ethtypes.NewMsgLock(1, usr, ethtypes.NewEthereumAddress("0x7B95B6EC7EbD73572298cEf32Bb54FA408207359"), sdk.NewIntFromBigInt(amt), "rowan", sdk.NewInt(int64(r.Intn(3))))
 		return run("eth.lock", msg.ValidateBasic, func(ctx sdk.Context) error { _, err := u.esrv.Lock(sdk.WrapSDKContext(ctx), &msg); return err })
 	}
@@ -310,13 +369,70 @@ func directedF16(out *Out) {
 	}
 }
 
+// directedDeepPool: the demonstration of seeded change C10-6, literally: default rewards parameters (pool
+// mode, hourly epoch, lock period 14 days), a pool created with `native` rowan, one rewards-bucket top-up
+// of `bucket` ceth; once the provider is past the lock period an epoch ends and the epoch hook adds the
+// reward to the pool (CalculatePoolUnits on the BLOCK context).
+func directedDeepPool(out *Out, native, bucket *big.Int, tag string) {
+	out.Emit("reset", "ok", "reset", false)
+	w := NewWorld([]string{"ceth"}, []int64{18}, 3)
+	u := &userWorld{World: w, now: t0}
+	lp, donor := w.users[0], w.users[1]
+	w.Fund(lp, "rowan", native)
+	w.Fund(lp, "ceth", e10(18))
+	w.Fund(donor, "ceth", bucket)
+	u.lastOp = "deep-pool"
+	u.beginHooks(out, tag)
+	u.lastOp = "createpool:" + w.CreatePool(lp, "ceth", native, e10(18))
+	res := w.Tx(func(ctx sdk.Context) error {
+		m := clptypes.MsgAddLiquidityToRewardsBucketRequest{Signer: donor.String(), Amount: sdk.NewCoins(sdk.NewCoin("ceth", sdk.NewIntFromBigInt(bucket)))}
+		if err := m.ValidateBasic(); err != nil {
+			return err
+		}
+		_, err := w.csrv.AddLiquidityToRewardsBucket(sdk.WrapSDKContext(ctx), &m)
+		return err
+	})
+	u.lastOp += ",bucket:" + res
+	u.endHooks(out, tag)
+	// next block, then jump past the rewards lock period (the harness may jump heights) and 15 days ahead
+	u.now = u.now.Add(6 * time.Second)
+	u.height++
+	u.ctx = u.ctx.WithBlockHeight(u.height).WithBlockTime(u.now)
+	u.beginHooks(out, tag)
+	u.endHooks(out, tag)
+	lock := int64(w.app.ClpKeeper.GetRewardsParams(w.ctx).RewardsLockPeriod)
+	for i := 0; i < 3; i++ {
+		if i == 0 {
+			u.height += lock + 10
+			u.now = u.now.Add(15 * 24 * time.Hour)
+		} else {
+			u.height++
+			u.now = u.now.Add(61 * time.Minute)
+		}
+		u.ctx = u.ctx.WithBlockHeight(u.height).WithBlockTime(u.now)
+		u.beginHooks(out, tag)
+		u.endHooks(out, tag)
+	}
+	if bk, found := w.app.ClpKeeper.GetRewardsBucket(w.ctx, "ceth"); found {
+		out.Hist["deep-pool.bucket-left."+boolBit(!bk.Amount.IsZero())]++
+	}
+}
+
 func init() {
 	families["userhist"] = func(rng *Rng, n int, out *Out, replay string) {
 		directedF16(out)
+		directedDeepPool(out, pow2(128), pow2(128), ".deep-pool.2p128")
+		directedDeepPool(out, sub1(pow2(128)), sub1(pow2(128)), ".deep-pool.2p128m1")
+		directedDeepPool(out, pow2(128), new(big.Int).Lsh(big.NewInt(3), 128), ".deep-pool.3x2p128")
 		for sc := 0; sc < n; sc++ {
 			r := NewRng(rng.U64())
 			out.Emit("reset", "ok", "reset", false)
-			u := newUserWorld(r)
+			var u *userWorld
+			if sc%3 == 1 {
+				u = newDeepUserWorld(r)
+			} else {
+				u = newUserWorld(r)
+			}
 			u.envelopeConfig(r)
 			blocks := 12 + r.Intn(20)
 			for b := 0; b < blocks; b++ {
